@@ -314,11 +314,78 @@ pub fn check(case: &Case, obs: &mut Obs) -> CheckResult {
     Ok(())
 }
 
+// --------------------------------------------------------------- backlog tier
+
+/// A backlog of uplink datagrams queued by the reader tasks and consumed by the
+/// event loop's bounded drain passes: every non-internal one must reach the client.
+#[derive(Debug, Clone, Hash, Serialize, Deserialize)]
+pub struct Backlog {
+    pub n_links: u8,
+    /// backlog sizes enqueued before each run of drain passes
+    pub rounds: Vec<u16>,
+    pub internal_every: u8,
+}
+
+fn backlog_strategy() -> impl Strategy<Value = Backlog> {
+    (1u8..=3, vec(prop_oneof![2 => 1u16..64, 3 => proptest::sample::select(vec![63u16, 64, 65, 66, 127, 128, 129, 130, 200]), 1 => 64u16..400], 1..4), 0u8..6)
+        .prop_map(|(n_links, rounds, internal_every)| Backlog { n_links, rounds, internal_every })
+}
+
+pub fn check_backlog(case: &Backlog, obs: &mut Obs) -> CheckResult {
+    let n = case.n_links as usize;
+    let addrs: Vec<u8> = (0..n as u8).collect();
+    let mut sh = Shell::new(&addrs, ConfigSnapshot::default());
+    sh.establish_all();
+    // a client address must be known
+    let mut p = vec![0u8; 32];
+    p[0..4].copy_from_slice(&7u32.to_be_bytes());
+    sh.client_pkt(&p);
+    let _ = sh.drain_client();
+    let _ = sh.drain_wire();
+    let mut tag = 0u32;
+    let mut over_limit = false;
+    for r in &case.rounds {
+        let mut expected: Vec<Vec<u8>> = Vec::new();
+        for k in 0..*r {
+            tag += 1;
+            let internal = case.internal_every > 0 && k % (case.internal_every as u16 + 3) == 0;
+            let mut d = if internal { vec![0x91, 0x00, 0, 0] } else { vec![0x80, 0x07, 0, 0] };
+            d.extend_from_slice(&tag.to_be_bytes());
+            d.extend_from_slice(&(tag ^ 0x5555_aaaa).to_be_bytes());
+            if !internal {
+                expected.push(d.clone());
+            }
+            sh.enqueue_uplink((k as usize) % n, &d);
+        }
+        if *r > 64 {
+            over_limit = true;
+        }
+        // drain passes until the channel is empty (each pass is bounded)
+        let mut got: Vec<Vec<u8>> = Vec::new();
+        for _ in 0..(*r as usize / 64 + 3) {
+            sh.drain_queue();
+            got.extend(sh.drain_client());
+        }
+        for e in &expected {
+            vensure!(got.iter().any(|g| g == e), "backlog-datagram-lost", "a backlog of {} uplink datagrams: datagram tag {} never reached the client ({} of {} relayed)", r, u32::from_be_bytes([e[4], e[5], e[6], e[7]]), got.len(), expected.len());
+        }
+        for g in &got {
+            vensure!(expected.iter().any(|e| e == g), "backlog-unexpected-datagram", "client received a datagram that was not relayed traffic");
+        }
+    }
+    obs.nontrivial = over_limit;
+    if over_limit {
+        obs.class("backlog-over-one-pass");
+        obs.sample = Some(json!({"links": n, "rounds": case.rounds}));
+    }
+    Ok(())
+}
+
 pub fn run(ctx: &Ctx) -> &'static str {
     ctx.assume("reference classification uses the first two bytes only; internal = {0x9000, 0x9100, 0x9201, 0x9202, 0x9210, 0x9211}; registration replies = {0x9201, 0x9202, 0x9210, 0x9211}");
     ctx.assume("delivery proof may also be cleared (to 0) by the link reset a REG_ERR causes; that is not 'counting as proof'");
     for (file, body) in ctx.replay_files() {
-        if !ctx.replay_case::<Case, _>("datagrams", &file, &body, check) {
+        if !(ctx.replay_case::<Case, _>("datagrams", &file, &body, check) || ctx.replay_case::<Backlog, _>("backlog", &file, &body, check_backlog)) {
             eprintln!("replay {}: unknown part", file.display());
         }
     }
@@ -332,6 +399,13 @@ pub fn run(ctx: &Ctx) -> &'static str {
         ctx.tier.pick(15_000, 400_000),
         || strategy(mo),
         |_| check,
+    );
+    ctx.explore(
+        "backlog",
+        "backlogs of 1..399 uplink datagrams (sizes around the 64-per-pass drain limit) enqueued on the uplink channel as the reader tasks do and consumed by the real bounded drain_packet_queue passes: every non-internal datagram reaches the client, nothing else does; non-trivial = a backlog larger than one pass",
+        ctx.tier.pick(600, 10_000),
+        backlog_strategy,
+        |_| check_backlog,
     );
     if ctx.tier == crate::rt::Tier::Thorough {
         crate::fuzzrun::campaign(ctx, "c09_uplink", 300);
